@@ -241,3 +241,46 @@ func c15NoQuad(maxLen int) {
 
 func VerifC15_NoQuad()   { c15NoQuad(9) }
 func VerifC15_T_NoQuad() { c15NoQuad(16) }
+
+// numbers that are not octets or ports: a port above 65535 (five or six digits) or an octet above 255 (three
+// or four digits) in an otherwise well-formed text is rejected by every role - never read as another number
+func c15OutOfRange() {
+	r := c15Roles()[nondetEnum("role", 4)]
+	var b []byte
+	which := nondetEnum("which", 5) // 0..3: that octet is out of range; 4: the port is
+	for i := 0; i < 4; i++ {
+		n := 2
+		if i == which {
+			n = 3 + nondetEnum("octet.digits", 2)
+		}
+		dg, v := c15Number(keyTagT("octet", i), n)
+		if i == which {
+			verifAssume(v > 255)
+		}
+		if i > 0 {
+			b = append(b, '.')
+		}
+		b = append(b, dg...)
+	}
+	pd := 5
+	if which == 4 {
+		pd = 5 + nondetEnum("port.digits", 2)
+	}
+	dg, v := c15Number("port", pd)
+	if which == 4 {
+		verifAssume(v > 65535)
+	} else {
+		verifAssume(v <= 65535 && v != 0 && v != 60000)
+	}
+	b = append(b, ':')
+	b = append(b, dg...)
+	_, err := r.parse(string(b))
+	verifAssert(err != nil, r.name+": a text whose octet exceeds 255 or whose port exceeds 65535 is rejected")
+	old := netip.AddrPortFrom(netip.AddrFrom4([4]byte{10, 0, 0, 1}), 12345)
+	_, serr := r.set(old, string(b))
+	verifAssert(serr != nil, r.name+": Set rejects a text whose octet exceeds 255 or whose port exceeds 65535")
+	verifReach("c15.outofrange")
+}
+
+func VerifC15_NumbersOutOfRange()     { c15OutOfRange() }
+func VerifC14_AddrNumbersOutOfRange() { c15OutOfRange() }
